@@ -28,9 +28,11 @@ def run(tier, seed):
         "correspondence": {"capi": {"lines": r["lines"], "mismatches": len(r["mismatches"])}},
         "assumptions": ["what the C compiler emits for the five statement forms is witnessed by the sanitizer runs only (runtime)",
                         "int64 arithmetic does not overflow for objects smaller than 2^62 bytes"],
-        "partial": ["C07_in_bounds (every access of every accessor on a writer-produced object is inside its extent) is not yet "
-                    "a kernel-checked theorem: it needs the layout writer model; it is checked on the model's access lists for "
-                    "every generated object and by ASan/UBSan on the compiled code"],
+        "partial": ["in bounds: C07_leaf_in_extent / C07_store_in_extent prove that the element at the end of every nested path of a "
+                    "writer-produced reference-free object lies inside the object's extent and that the store changes only its "
+                    "bytes; that the address the C accessor computes (docAddr, C02_addr) IS that leaf address is executed (lay "
+                    "driver: leafAt against the library's slot addresses; capi: compiled calls) and run under ASan/UBSan, not "
+                    "a theorem; header loads in bounds and paths through references: sanitizers and the model's access lists"],
     }
 
 
